@@ -501,10 +501,20 @@ func (c *Ctx) keyD(v ssa.Value, e *env, depth int, seen map[ssa.Value]bool) stri
 		if widensInt(x.X.Type(), x.Type()) {
 			return k(x.X) // int(op) for an integer-typed enum: the same number
 		}
+		if rv, re := c.resolveE(x.X, e); rv != nil {
+			if in, ok := textRoundTrip(rv, x.Type()); ok {
+				return c.keyD(in, re, depth+1, seen)
+			}
+		}
 		return "conv:" + typeStr(x.Type()) + "(" + k(x.X) + ")"
 	case *ssa.ChangeType:
 		if widensInt(x.X.Type(), x.Type()) {
 			return k(x.X)
+		}
+		if rv, re := c.resolveE(x.X, e); rv != nil {
+			if in, ok := textRoundTrip(rv, x.Type()); ok {
+				return c.keyD(in, re, depth+1, seen)
+			}
 		}
 		return "conv:" + typeStr(x.Type()) + "(" + k(x.X) + ")"
 	case *ssa.Slice:
@@ -1399,4 +1409,22 @@ func (c *Ctx) atomAlts0(cond ssa.Value, pol bool, e *env) [][]Atom {
 		}
 	}
 	return [][]Atom{c.atoms(cond, pol, e)}
+}
+
+// textRoundTrip: inner is itself a conversion between string-kinded types from a value of type outer — T(U(x))
+// with x of type T is x (string(word(s)) for a named string type word).
+func textRoundTrip(inner ssa.Value, outer types.Type) (ssa.Value, bool) {
+	var src ssa.Value
+	switch y := inner.(type) {
+	case *ssa.Convert:
+		src = y.X
+	case *ssa.ChangeType:
+		src = y.X
+	default:
+		return nil, false
+	}
+	if !isStringKind(outer) || !isStringKind(inner.Type()) || !types.Identical(src.Type(), outer) {
+		return nil, false
+	}
+	return src, true
 }
